@@ -260,6 +260,9 @@ def norm_term(t):
                     return ('!', e)
     if t[0] == 'call' and len(t) == 4 and t[1] == 'std::make_pair':
         return ('pair', t[2], t[3])
+    if t[0] == 'mcall' and len(t) == 4 and isinstance(t[1], str) and t[1].startswith(('std::map<', 'std::unordered_map<')) and t[1].endswith('::insert') and \
+            isinstance(t[3], tuple) and len(t[3]) == 3 and t[3][0] == 'pair':
+        return ('mcall', t[1][:-len('insert')] + 'emplace', t[2], t[3][1], t[3][2])      # m.insert({k, v}) is m.emplace(k, v): neither overwrites
     if t[0] == 'new' and isinstance(t[1], str) and t[1].startswith('std::pair<'):
         if len(t) == 4:
             return ('pair', t[2], t[3])
